@@ -119,6 +119,7 @@ func c05Gen(c *vlib.Ctx, idx int) c05Scenario {
 		nTasks = 4 + r.Intn(3)
 	}
 	groups := map[int]*roleSpec{}
+	homeOf := map[*roleSpec]int{}
 	rootWrong := ""
 	if fl == "override" || r.Intn(5) == 0 {
 		// a root-level constraint that every branch must override
@@ -156,6 +157,7 @@ func c05Gen(c *vlib.Ctx, idx int) c05Scenario {
 			CPU: []float64{0.1, 0.25, 0.5, 1}[r.Intn(4)], Mem: []float64{32, 128, 256, 512}[r.Intn(4)]}
 		role := &roleSpec{Name: fmt.Sprintf("t%d", t), Task: tpl, Critical: true}
 		parent.Children = append(parent.Children, role)
+		homeOf[role] = home
 		// constraints satisfied by the home agent, spread over the levels
 		attrs := []string{}
 		for k := range ag.Attrs {
@@ -243,6 +245,32 @@ func c05Gen(c *vlib.Ctx, idx int) c05Scenario {
 		}
 	}
 	tasks := root.taskRoles()
+	// an aggregator-level "elsewhere" is only there to be overridden: every task below it needs a nearer
+	// definition that its intended agent satisfies
+	for _, tr := range tasks {
+		anc := tr.ancestorsIn(root)
+		for ai, a := range anc {
+			for _, cst := range a.Constraints {
+				if cst.V != "elsewhere" {
+					continue
+				}
+				nearer := false
+				for _, p := range append([]*roleSpec{tr}, anc[:ai]...) {
+					if _, ok := kvGet(p.Constraints, cst.K); ok {
+						nearer = true
+					}
+				}
+				if nearer {
+					continue
+				}
+				if v, ok := sc.Agents[homeOf[tr]].Attrs[cst.K]; ok {
+					tr.Constraints = append(tr.Constraints, kv{cst.K, satisfiedValue(r, v)})
+				} else {
+					a.Constraints = kvDel(a.Constraints, cst.K)
+				}
+			}
+		}
+	}
 	first := tasks[0]
 	a0 := &sc.Agents[0]
 	pin := func(tr *roleSpec, host string) {
@@ -517,6 +545,9 @@ func c05Run(c *vlib.Ctx, idx int) {
 	cancel()
 	obs.Steps = append(obs.Steps, fmt.Sprintf("NewEnvironment(%s) err=%q in %s", sc.Root.Name, truncate(grpcMsg(cerr), 300), time.Since(t0).Round(time.Millisecond)))
 	c.Count("deployments_driven", 1)
+	if os.Getenv("VERIF_TRACE") != "" {
+		fmt.Fprintf(os.Stderr, "TRACE %d %s: %s\n", idx, sc.Flavour, truncate(grpcMsg(cerr), 260))
+	}
 	if strings.Contains(grpcMsg(cerr), "DeadlineExceeded") {
 		// not this property's subject (C02/C06); without the answer the round cannot be delimited
 		c.Inconclusive(fmt.Sprintf("scenario %d: NewEnvironment did not return within 120 s; blocked goroutines: %s", idx, truncate(s.DumpGoroutines(), 3000)))
